@@ -8,7 +8,8 @@ Open Scope Z_scope.
 
 Definition documented_order : list Z := [0; 1; 2; 3; 4; 5].
 
-(* first reader (by position in the documented order) whose own detect accepted *)
+(* first reader (by position in the documented order) whose own detect accepted; a reader whose detect
+   raised did not accept *)
 Fixpoint first_accepting (ids : list Z) (ds : list (result bool)) : option Z :=
   match ids, ds with
   | i :: ids', Ok true :: _ => Some i
@@ -25,13 +26,21 @@ Definition opt_z_eqb (a b : option Z) : bool :=
   | _, _ => false
   end.
 
-(* ok_detect nonempty ds df : the property for one string *)
+(* ok_detect nonempty ds df : the property for one string - exactly the statement:
+   non-empty: format detection (df) does not raise and returns nothing / the first accepting reader;
+   empty: it raises the documented no-captions error.
+   What the six sniffers do on their own when format detection does not consult them (a later sniffer raising on a
+   string an earlier reader claimed; any sniffer on the empty string) is not constrained by the statement. *)
 Definition ok_detect (nonempty : bool) (ds : list (result bool)) (df : result (option Z)) : bool :=
   if nonempty then
-    (length ds =? 6)%nat && forallb no_raise ds &&
+    (length ds =? 6)%nat &&
     match df with
     | Ok o => opt_z_eqb o (first_accepting documented_order ds)
     | Err _ => false
     end
   else
     match df with Err ENoCaptions => true | _ => false end.
+
+(* the stronger reading of the round-0 oracle (every sniffer total on non-empty strings): a theorem about the
+   model and counted information about the implementation, no longer demanded of it *)
+Definition all_sniffers_total (ds : list (result bool)) : bool := forallb no_raise ds.
